@@ -155,7 +155,7 @@ where
 
 pub fn sweep(ctx: &mut Ctx) {
     let mut rng = ctx.rng(0xC14);
-    let scripts = ctx.by_tier(2, 12);
+    let scripts = ctx.by_tier(4, 20);
     sweep_kind::<Bdd>(ctx, &mut rng, scripts, 1);
     sweep_kind::<Bcdd>(ctx, &mut rng, scripts, 1);
     sweep_kind::<Zbdd>(ctx, &mut rng, scripts, 1);
